@@ -320,10 +320,10 @@ func sameTree(a, b any) bool {
 // runSeq applies the helpers `ops` one after the other to in = whole[:k] (k == len(whole):
 // the result itself; k < len(whole): a prefix of a longer sequence result whose later fields
 // live in the spare capacity of `in`).  After every call the whole tree must be unchanged.
-func runSeq(o *vh.Out, ops []string, whole []any, k int, how string) {
+func runSeq(o *vh.Out, ops []string, whole []any, k int, how, extra string) {
 	in := whole[:k]
 	before := recap(whole, func(int) int { return 0 }).([]any)
-	caseLine := "tplh2\t" + strings.Join(ops, ",") + "\t" + show(in)
+	caseLine := "tplh2\t" + strings.Join(ops, ",") + "\t" + show(in) + "\t" + how + "\t" + extra
 	outs := make([]string, len(ops))
 	first := map[string]string{}
 	for i, op := range ops {
@@ -355,14 +355,14 @@ func seqCases(o *vh.Out, r *vh.Rand, group []string, tree []any) {
 	switch r.Intn(3) {
 	case 0:
 		w := recap(tree, func(int) int { return 0 }).([]any)
-		runSeq(o, ops, w, len(w), "exact-capacity")
+		runSeq(o, ops, w, len(w), "exact-capacity", "-")
 	case 1:
-		w := recap(tree, func(n int) int { return 1 + r.Intn(3) }).([]any)
-		runSeq(o, ops, w, len(w), "spare-capacity")
+		w := recap(tree, func(n int) int { return 2 }).([]any)
+		runSeq(o, ops, w, len(w), "spare-capacity", "-")
 	default:
 		w := recap(tree, func(int) int { return 0 }).([]any)
 		if len(w) < 2 {
-			runSeq(o, ops, w, len(w), "exact-capacity")
+			runSeq(o, ops, w, len(w), "exact-capacity", "-")
 			return
 		}
 		// rule = R *(sep R) tail…: the helper gets self[:2], tail fields follow in the same array
@@ -371,40 +371,40 @@ func seqCases(o *vh.Out, r *vh.Rand, group []string, tree []any) {
 		for j := r.Intn(3) + 1; j > 0; j-- {
 			long = append(long, toks[r.Intn(len(toks))])
 		}
-		runSeq(o, ops, long, 2, "prefix-of-longer-result")
+		runSeq(o, ops, long, 2, "prefix-of-longer-result", strings.ReplaceAll(show(long), " ", "_"))
 	}
 }
 
-// realListTrees: results of the real matcher for `doc = INT % ","` (real slice capacities).
-func realListTrees() (trees [][]any) {
+// realSeq: helper sequences directly on results of the real matcher (one fresh Match per sequence).
+func realSeq(o *vh.Out, onlyText string, onlyOps []string) {
 	c := tplm.Compile("doc = INT % \",\"\n", nil)
-	if c.Err != nil {
-		return nil
+	c2 := tplm.Compile("doc = INT *(\",\" INT) \";\"\n", nil)
+	if c.Err != nil || c2.Err != nil {
+		return
 	}
-	for n := 1; n <= 5; n++ {
-		ws := make([]string, n)
-		for i := range ws {
-			ws[i] = strconv.Itoa(11 * (i + 1))
+	one := func(ops []string, text string) {
+		cc, k, how := c, 0, "real-match"
+		if strings.HasSuffix(text, ";") {
+			cc, k, how = c2, 2, "real-match-prefix"
 		}
-		ms, res, err := c.C.Match("", strings.Join(ws, ", "), nil)
+		ms, res, err := cc.C.Match("", text, nil)
 		if err != nil {
-			continue
+			return
 		}
 		for i, t := range ms.Toks {
 			tokIndex[t] = i
 		}
-		if l, ok := res.([]any); ok {
-			trees = append(trees, l)
+		l, ok := res.([]any)
+		if !ok || len(l) < 2 {
+			return
 		}
+		if k == 0 {
+			k = len(l)
+		}
+		runSeq(o, ops, l, k, how, vh.HexS(text))
 	}
-	return
-}
-
-// realSeq: helper sequences directly on results of the real matcher (one fresh Match per sequence).
-func realSeq(o *vh.Out) {
-	c := tplm.Compile("doc = INT % \",\"\n", nil)
-	c2 := tplm.Compile("doc = INT *(\",\" INT) \";\"\n", nil)
-	if c.Err != nil || c2.Err != nil {
+	if onlyText != "" {
+		one(onlyOps, onlyText)
 		return
 	}
 	for n := 1; n <= 5; n++ {
@@ -415,22 +415,8 @@ func realSeq(o *vh.Out) {
 		text := strings.Join(ws, ", ")
 		for _, h1 := range groupA {
 			for _, h2 := range groupA {
-				if ms, res, err := c.C.Match("", text, nil); err == nil {
-					for i, t := range ms.Toks {
-						tokIndex[t] = i
-					}
-					if l, ok := res.([]any); ok {
-						runSeq(o, []string{h1, h2, h1}, l, len(l), "real-match")
-					}
-				}
-				if ms, res, err := c2.C.Match("", text+";", nil); err == nil {
-					for i, t := range ms.Toks {
-						tokIndex[t] = i
-					}
-					if l, ok := res.([]any); ok && len(l) == 3 {
-						runSeq(o, []string{h1, h2, h1}, l, 2, "real-match-prefix")
-					}
-				}
+				one([]string{h1, h2, h1}, text)
+				one([]string{h1, h2, h1}, text+";")
 			}
 		}
 	}
@@ -497,22 +483,36 @@ unaryExpr = "-" operand
 basicLit = INT | FLOAT
 `
 
+var calcMutated string
+
+func calcFold(in []any) any {
+	return tpl.BinaryOp(true, in, func(op *tpl.Token, x, y any) any {
+		switch op.Tok {
+		case '+':
+			return x.(float64) + y.(float64)
+		case '-':
+			return x.(float64) - y.(float64)
+		case '*':
+			return x.(float64) * y.(float64)
+		case '/':
+			return x.(float64) / y.(float64)
+		}
+		panic("unexpected")
+	})
+}
+
 func calcProcs() map[string]any {
 	return map[string]any{
 		"expr": matcher.RetProc(func(self any) any {
-			return tpl.BinaryOp(true, self.([]any), func(op *tpl.Token, x, y any) any {
-				switch op.Tok {
-				case '+':
-					return x.(float64) + y.(float64)
-				case '-':
-					return x.(float64) - y.(float64)
-				case '*':
-					return x.(float64) * y.(float64)
-				case '/':
-					return x.(float64) / y.(float64)
-				}
-				panic("unexpected")
-			})
+			// the calculator is run twice on the same match result; the result must not change
+			in := self.([]any)
+			before := recap(in, func(int) int { return 0 })
+			r1 := calcFold(in)
+			r2 := calcFold(in)
+			if r1 != r2 || !sameTree(in, before) {
+				calcMutated = fmt.Sprintf("BinaryOp(true, self) gave %v then %v; self is %s, was %s", r1, r2, show(in), show(before))
+			}
+			return r1
 		}),
 		"unaryExpr": matcher.RetProc(func(self any) any { return -(self.([]any)[1].(float64)) }),
 		"basicLit": matcher.RetProc(func(self any) any {
@@ -622,6 +622,10 @@ func runCalc(o *vh.Out, c tplm.Compiled, gsx string, text string, wellFormed boo
 		}
 		return "env=1 ok " + strconv.FormatInt(int64(f), 10)
 	})
+	if calcMutated != "" {
+		o.Oracle("helper-mutates-input", caseLine, calcMutated)
+		calcMutated = ""
+	}
 	if wellFormed {
 		p := &pc{ws: ws}
 		want, ok := p.expr(1)
@@ -664,6 +668,27 @@ func main() {
 				in = nil
 			}
 			runHelper(o, fs[1], in, nil)
+		case "tplh2":
+			all := strings.Fields(f.Replay) // tplh2 ops value… how extra
+			ops := strings.Split(all[1], ",")
+			how, extra := all[len(all)-2], all[len(all)-1]
+			val := strings.Join(all[2:len(all)-2], " ")
+			switch how {
+			case "real-match", "real-match-prefix":
+				text, _ := vh.UnHex(extra)
+				realSeq(o, string(text), ops)
+			case "prefix-of-longer-result":
+				long, _ := parseVal(strings.ReplaceAll(extra, "_", " ")).([]any)
+				buf := make([]any, 0, len(long))
+				buf = append(buf, long...)
+				runSeq(o, ops, buf, 2, how, extra)
+			case "spare-capacity":
+				w, _ := recap(parseVal(val), func(int) int { return 2 }).([]any)
+				runSeq(o, ops, w, len(w), how, "-")
+			default:
+				w, _ := recap(parseVal(val), func(int) int { return 0 }).([]any)
+				runSeq(o, ops, w, len(w), how, "-")
+			}
 		case "tplc":
 			all := strings.Fields(f.Replay)
 			text, _ := vh.UnHex(all[len(all)-1])
@@ -717,16 +742,7 @@ func main() {
 			runHelper(o, op, in, n)
 		}
 	}
-	for _, tree := range realListTrees() {
-		for _, h1 := range groupA {
-			for _, h2 := range groupA {
-				// a fresh deep copy would lose the real capacities: re-match instead of copying
-				w := recap(tree, func(n int) int { return cap(tree) - len(tree) }).([]any)
-				runSeq(o, []string{h1, h2, h1}, w, len(w), "like-real-match")
-			}
-		}
-	}
-	realSeq(o)
+	realSeq(o, "", nil)
 	c := tplm.Compile(calcGrammar, calcProcs())
 	if c.Err != nil {
 		o.Case("tplc-compile", "calculator grammar does not compile: "+c.Err.Error(), false)
